@@ -137,6 +137,40 @@ def decision_case(host, no_proxy, source):
     return None
 
 
+JUNK = ["fe80::/10", "::1/128", "2001:db8::/32", "10.0.0.0/33", "10.0.0.0/-1", "10.0.0.0/x", "/", "/24", "10.1.2.3/", "256.1.2.3/8", "1.2.3.4/8/8",
+        "localhost:8080", "[::1]", "*.b", "http://b", "10.1.2.3:80", "b/24", "::1", "2001:db8::1", "10.1.2", "010.001.002.003", "0x0a.1.2.3"]
+JUNK_LISTS = [[], ["10.1.2.0/24"], ["10.1.2.3"], ["192.168.0.0/16", "10.0.0.0/8"], ["b"], [".b"], ["a.b", "10.255.0.0/16"], ["0.0.0.0/0"]]
+
+
+def _decide(host, no_proxy, source):
+    envd, opt = {}, None
+    if source == "option":
+        opt = list(no_proxy)
+    else:
+        envd["no_proxy"] = ",".join(no_proxy)
+    set_env(envd)
+    try:
+        return lib._url.get_proxy_info(host, False, proxy_host="proxy.example", proxy_port=3128, proxy_auth=None, no_proxy=opt)[0] is None
+    finally:
+        set_env({})
+
+
+def junk_case(host, base, junk, pos, source):
+    """An entry that is none of the documented forms for this host (an IPv6 / malformed block, a name with a port, a URL ...) exempts
+    nothing and - above all - does not change what the OTHER entries of the list decide, wherever it stands in the list."""
+    want = _decide(host, base, source)
+    lst = list(base)
+    lst.insert(min(pos, len(lst)), junk)
+    got = _decide(host, lst, source)
+    if junk == host:
+        return None
+    if got != want:
+        return ({"kind": "junk-entry-changes-decision", "pos": "before" if pos == 0 else "after", "source": source, "exempted": got},
+                "host %r: no_proxy %r decides %s, but with the entry %r %s it decides %s (%s)" % (
+                    host, base, "exempt" if want else "use proxy", junk, "in front" if pos == 0 else "appended", "exempt" if got else "use proxy", source))
+    return None
+
+
 class OriginPeer:
     def __init__(self):
         self.req = None
@@ -494,6 +528,7 @@ def tasks(tier, seed):
     H = names() + IPS
     for hi in range(len(H)):
         ts.append({"part": "decide", "host": hi, "tier": tier, "name": "decide/%s" % H[hi]})
+    ts.append({"part": "junk", "name": "junk"})
     ts.append({"part": "connect", "name": "connect"})
     ts.append({"part": "replies", "name": "replies"})
     ts.append({"part": "redirect", "name": "redirect"})
@@ -534,6 +569,15 @@ def run_task(desc):
                         rec(guarded(decision_case, host, [e1, e2], src), {"case": "decide", "host": host, "np": [e1, e2], "src": src})
         if desc["host"] in (0, 40):
             res["samples"].append({"host": host, "no_proxy_entries": E[:4] + E[40:44] + E[-3:]})
+    elif desc["part"] == "junk":
+        for host in IPS + ["b", "a.b", "c.a.b", "localhost", "::1", "2001:db8::1"]:
+            for base in JUNK_LISTS:
+                for junk in JUNK:
+                    for pos in (0, 99):
+                        for src in ("option", "env"):
+                            n += 1
+                            rec(guarded(junk_case, host, base, junk, pos, src), {"case": "junk", "args": [host, base, junk, pos, src]})
+        res["samples"].append({"junk_entries": JUNK[:8]})
     elif desc["part"] == "connect":
         for scheme in ("ws", "wss"):
             for popt in (None, "plain", "user", "userpass", "long"):
@@ -582,6 +626,8 @@ def replay(rep):
         f = redirect_case(*rep["args"])
     elif rep["case"] == "resolver":
         f = resolver_fault_case(*rep["args"])
+    elif rep["case"] == "junk":
+        f = junk_case(*rep["args"])
     else:
         a = rep["args"]
         kw = {"envurl": a[5], "tport": a[6] if len(a) > 6 else None, "via": a[7] if len(a) > 7 else "connect"}
